@@ -51,8 +51,10 @@ def check(ctx):
         order = rng.choice(pc.ORDERS)
         k1, k2 = gen.mkcontract(c1), gen.mkcontract(c2)
         okind, v, calls = pp.observe(lambda: k1.compose_tactics(k2, keep_arg, simplify, None if order is None else list(order)))
+        safe = pc.exact_safe_pair(c1, c2)
+        hist["correspondence:" + ("compared" if safe else "oracle_only(inexact-prone)")] = hist.get("correspondence:" + ("compared" if safe else "oracle_only(inexact-prone)"), 0) + 1
         exprs.append(f"cc_compose {cf.q(TAU)} {record.coq_table(calls)} {pc.cfields(c1)} {pc.cfields(c2)} "
-                     f"{cf.opt(keep_arg, cf.svars)} {cf.boolean(simplify)} {cf.opt(order, cf.natlist)} {pc.exp_pair(okind, v)}")
+                     f"{cf.opt(keep_arg, cf.svars)} {cf.boolean(simplify)} {cf.opt(order, cf.natlist)} {pc.exp_pair(okind, v)}" if safe else "true")
         pp.validate_lp(ctx, calls)
         payload = {"wiring": wiring, "c1": cf.jsonable_contract(c1), "c2": cf.jsonable_contract(c2), "vars_to_keep": keep_arg,
                    "simplify": simplify, "tactics_order": order}
